@@ -294,13 +294,24 @@ def wl_history(ctx, rng, i):
                     k = rng.choice(UNMOD)
                     val = {"type": "tool", "id": "%s--%s" % (prev_j["type"], V.uuid_text(rng)), "created": "2001-01-01T00:00:00.000Z",
                            "created_by_ref": "identity--" + V.uuid_text(rng)}[k]
-                    label = "new_version(%s=...)" % k
+                    how = rng.choice(["other-value", "other-value", "none", "same-value", "falsy"])
+                    if how == "none":
+                        val = None                      # "None removes the property" must not be a way around the rule
+                    elif how == "falsy":
+                        val = ""
+                    elif how == "same-value" and k in prev_j:
+                        val = prev_j[k]
+                    label = "new_version(%s=<%s>)" % (k, how)
                     try:
                         r = stix2.versioning.new_version(prev, **{k: val}) if form == "dict" else prev.new_version(**{k: val})
-                        ctx.violation("unmodifiable-property-changed", "%s was accepted" % label, {"previous": prev_j, "attempt": {k: val}, "result": to_json(r)})
+                        rj = to_json(r)
+                        if how == "same-value" and all(rj.get(x) == prev_j.get(x) for x in UNMOD):
+                            ctx.skip("re-stating an unmodifiable property with its current value was accepted (not a change)")
+                        else:
+                            ctx.violation("unmodifiable-property-changed", "%s was accepted" % label, {"previous": prev_j, "attempt": {k: val}, "result": rj})
                     except family():
                         ctx.count("refusals_observed")
-                    ctx.see("operations", "unmodifiable-probe:" + k)
+                    ctx.see("operations", "unmodifiable-probe:%s:%s" % (k, how))
                     continue
         except family() as e:
             ctx.violation("legal-operation-refused", "%s on a %s %s (%s, clock %s) raised %s: %s" % (label, ver, t, form, rel, type(e).__name__, str(e)[:160]),
@@ -355,6 +366,8 @@ def wl_sco_locked(ctx, rng, i):
     d = json.loads(sco.serialize())
     # as a dict carrying the three versioning properties as custom content the library lets it be versioned
     d.update({"created": "2020-01-01T00:00:00.000Z", "modified": "2020-01-01T00:00:00.000Z", "revoked": False})
+    if i % 3 == 2:
+        lv = None
     ctx.ev()
     try:
         r = stix2.versioning.new_version(d, **{locked: lv})
@@ -377,7 +390,7 @@ def wl_sco_locked(ctx, rng, i):
 
 WORKLOADS = [
     Workload("history", wl_history, quick=lambda: len(SUBJECTS) * 30, thorough=lambda: len(SUBJECTS) * 400),
-    Workload("sco-locked", wl_sco_locked, quick=8, thorough=40),
+    Workload("sco-locked", wl_sco_locked, quick=24, thorough=120),
 ]
 
 
